@@ -75,6 +75,29 @@ def attr_{sn}_{kl}_{vl}(s: str) -> bool:
 def replay_attr_{sn}_{kl}_{vl}(s):
     return _api_attrs(s, {{s[:{kl}]: s[{vs}:{vs + vl}]}})
 ''')
+    # attributes written on tables, rows and cells (same written forms as above, shorter bounds)
+    for sn, (q1, q2) in styles.items():
+        for vl in ((1, 2) if quick else (1, 2, 3)):
+            kl = 1
+            n = kl + 1 + len(q1) + vl + len(q2)
+            pins = [f's[{kl}] == "="'] + ([f"s[{kl + 1}] == {q1!r}", f"s[{n - 1}] == {q2!r}"] if q1 else [])
+            vs = kl + 1 + len(q1)
+            valpha = '"ab1-_./:"'
+            pre = f"len(s) == {n} and " + " and ".join(pins + ['s[0] in "ab"'] + [f"s[{vs + i}] in {valpha}" for i in range(vl)])
+            for where, extra, call in (("table", "", f"table_attr_step(s, {kl}, {vs}, {vl})"), ("row", ", header: bool", f"row_attr_step(s, {kl}, {vs}, {vl}, header)"), ("cell", ", header: bool", f"cell_attr_step(s, {kl}, {vs}, {vl}, header)")):
+                hdr = ", header" if extra else ""
+                out.append(f"""
+def place_{where}_{sn}_{vl}(s: str{extra}) -> bool:
+    \"\"\"
+    pre: {pre}
+    post: _
+    \"\"\"
+    return {call}
+
+
+def replay_place_{where}_{sn}_{vl}(s{hdr}):
+    return replay_attr_place(s, {kl}, {vs}, {vl}, "{where}"{hdr})
+""")
     # two attributes: one symbolic string  k1="v1"<sep>k2=v2  with pinned punctuation
     out.append('''
 def attr_two(s: str) -> bool:
@@ -235,6 +258,7 @@ def run(rep: C.Report) -> None:
             H,
             {
                 "^t_": dict(name="Ob2 table one-step lemmas (|-  |  !  ||  !!  |+  |})", functions=["parser.py:table_row_fn", "parser.py:table_cell_fn", "parser.py:table_hdr_cell_fn", "parser.py:double_vbar_fn", "parser.py:table_caption_fn", "parser.py:table_end_fn"], bounds="all table states with <= 2 closed cells of symbolic kind, optional open cell of symbolic kind with one symbolic content char, optional caption"),
+                "^place_": dict(name="Ob5 attributes written on a table, a row or a cell become that node's attribute map", functions=["parser.py:table_check_attrs", "parser.py:table_row_check_attrs", "parser.py:table_cell_fn (attribute separator)", "parser.py:check_for_attributes"], bounds="one attribute, name 1 char, value 1..2 (thorough 3) symbolic URL-safe chars, three quoting styles; data and header cells"),
                 "^attr_": dict(name="Ob1 parse_attrs returns exactly the written attribute map", functions=["parser.py:parse_attrs"], bounds=f"name 1..2 chars over [ab-], value 0..{2 if quick else 3} chars over URL-safe characters, double-quoted / single-quoted / bare; two attributes with symbolic separator"),
             },
             timeout=90 if quick else 400,
